@@ -360,7 +360,7 @@ def oracle_C08(ctx, cases, answers):
 
 VALID_KEY = re.compile(r"^[A-Za-z0-9._-]+$")
 VALID_TYPE = re.compile(r"^[A-Za-z0-9.+-]+$")
-TYPED_KEYS = ["platform", "classifier", "type", "download_url", "file_name", "repository_url", "vcs_url"]
+TYPED_KEYS = ["platform", "classifier", "type", "download_url", "file_name", "repository_url", "vcs_url", "arch", "repository_url"]   # 7, 8: user-defined keys "Arch", "Repository_URL"; 9 ("a b") is invalid and only used in documented-panic cases
 
 
 def checksum_text_to_canon(uni, text):
@@ -849,6 +849,9 @@ class RefQuals:
             if n == "eqk":
                 return "T" if ka == ob else "F"
             return "lt" if ka < ob else ("gt" if ka > ob else "eq")
+        if n in ("gett", "hast", "rmt") and int(a[1]) >= len(TYPED_KEYS):
+            # the user-defined INVALID key: simply absent for lookups and removal
+            return {"gett": "~", "hast": "F", "rmt": "."}[n]
         if n == "gett":
             return opt_hx(self.m.get(TYPED_KEYS[int(a[1])]))
         if n == "hast":
